@@ -57,10 +57,38 @@ type charTreeCase struct {
 	Siblings []spg.CharRecipe
 }
 
+// snapChar renders every public field of a recipe, RequireSets with its capacity tail.
+func snapChar(r spg.CharRecipe) string {
+	full := r.RequireSets
+	if full != nil {
+		full = full[:cap(full)]
+	}
+	return fmt.Sprintf("%d|%d|%d|%d|%q|%q|%q|len=%d", r.Length, r.Allow, r.Require, r.Exclude, r.AllowChars, r.ExcludeChars, full, len(r.RequireSets))
+}
+
+// frame snapshots the recipe and its siblings; check compares later and reports what a call changed.
+func (tc charTreeCase) frame() []string {
+	out := []string{snapChar(tc.Rec)}
+	for _, s := range tc.Siblings {
+		out = append(out, snapChar(s))
+	}
+	return out
+}
+
+func (tc charTreeCase) frameChanged(before []string) string {
+	after := tc.frame()
+	for i := range before {
+		if before[i] != after[i] {
+			return fmt.Sprintf("library calls changed the public fields / caller-owned RequireSets array of a recipe: before %s after %s", before[i], after[i])
+		}
+	}
+	return ""
+}
+
 // preCalls uses the siblings the way an application holding several policies would.
 func (tc charTreeCase) preCalls() {
-	for _, sib := range tc.Siblings {
-		sib := sib
+	for i := range tc.Siblings {
+		sib := &tc.Siblings[i]
 		func() {
 			defer func() { recover() }()
 			sib.Entropy()
@@ -69,6 +97,27 @@ func (tc charTreeCase) preCalls() {
 			runGen(sib, nil)
 		}()
 	}
+}
+
+// shareArrays rebuilds the RequireSets of rec so that it has spare capacity, and adds two siblings that
+// share its backing array: one with one more set (a longer prefix of the same policy table), one with the
+// very same slice but a custom exclusion overlapping a required set.
+func shareArrays(rec *spg.CharRecipe, sibs []spg.CharRecipe) []spg.CharRecipe {
+	k := len(rec.RequireSets)
+	if k == 0 {
+		return sibs
+	}
+	table := make([]string, k+1, k+3)
+	copy(table, rec.RequireSets)
+	table[k] = "XYZ"
+	rec.RequireSets = table[:k]
+	longer := *rec
+	longer.RequireSets = table[:k+1]
+	longer.AllowChars += "q"
+	same := *rec
+	same.ExcludeChars += firstChar(rec.RequireSets[0])
+	same.AllowChars += "w"
+	return append(sibs, longer, same)
 }
 
 // siblingsOf builds field-regrouped variants of rec.
@@ -175,6 +224,9 @@ func charTreeCaseFor(tier string, seed uint64, i int) charTreeCase {
 	}
 	if i%2 == 0 {
 		c.Siblings = siblingsOf(r, c.Rec)
+		if i%4 == 0 {
+			c.Siblings = shareArrays(&c.Rec, c.Siblings)
+		}
 	}
 	return c
 }
@@ -227,10 +279,15 @@ func c02Tree(c *Ctx, tc charTreeCase, prefix string) {
 	if tc.Trials > 0 {
 		defer knobs(tc.Trials, tc.FailRate)()
 	}
+	fr := tc.frame()
 	tc.preCalls()
 	c.Count("sibling_recipes_used_first", int64(len(tc.Siblings)))
 	res := exploreGen(rec, tc.Lim, nil)
 	c.Exec(res.Leaves + res.Cuts)
+	if msg := tc.frameChanged(fr); msg != "" {
+		c.Violate(prefix+"call-modified-recipe-fields", msg, map[string]interface{}{"recipe": descChar(rec)})
+		return
+	}
 	c.Count("tree_leaves", int64(res.Leaves))
 	c.Count("tree_cuts", int64(res.Cuts))
 	c.Count("draws", res.Draws)
